@@ -200,7 +200,7 @@ def has_stall(word):
 
 # ------------------------------------------------------------------ the store under test
 
-def make_store(url, budget, rt, default_cfg=False, **kw):
+def make_store(url, budget, rt, default_cfg=False, scalar_timeout=False, **kw):
     """S3ChunkStore whose Retry object is the one the store itself builds (so the store's own
     status_forcelist is in force) with the counters of `budget` and no backoff."""
     from katdal.chunkstore_s3 import S3ChunkStore
@@ -208,7 +208,9 @@ def make_store(url, budget, rt, default_cfg=False, **kw):
         store = S3ChunkStore(url, **kw)            # retries=2 -> Retry(connect=2, read=2, status=5, backoff 10 s)
         store.timeout = (5.0, rt)
         return store
-    store = S3ChunkStore(url, timeout=(5.0, rt), retries=(budget.get('connect', 1), budget['read']), **kw)
+    # timeout is documented as "float or tuple": a single number serves as connect and read timeout
+    store = S3ChunkStore(url, timeout=(rt if scalar_timeout else (5.0, rt)),
+                         retries=(budget.get('connect', 1), budget['read']), **kw)
     store.retries = store.retries.new(total=budget.get('total'), status=budget['status'], backoff_factor=0)
     return store
 
@@ -234,7 +236,8 @@ def run_word_impl(s3, case):
     s3.reset()
     s3.buckets.add(BUCKET)
     s3.objects[f'/{BUCKET}/zz-other'] = b'x'          # keeps the bucket non-empty
-    store = make_store(s3.url, case['budget'], rt, default_cfg=case.get('default_cfg', False))
+    store = make_store(s3.url, case['budget'], rt, default_cfg=case.get('default_cfg', False),
+                       scalar_timeout=case.get('scalar_timeout', False))
     budget, force = store_budget(store)
     if not case.get('default_cfg'):
         # the documented meaning of retries=(connect, read) is what the model is given, not what the store made of it
@@ -637,8 +640,14 @@ def run_rdburl_impl(s3, case):
     b = case['budget']
     retries = Retry(total=b.get('total'), connect=b.get('connect', 1), read=b['read'], status=b['status'],
                     backoff_factor=0, status_forcelist=SPEC_FORCE)
-    res = dict(budget=dict(total=b.get('total'), connect=b.get('connect', 1), read=b['read'], status=b['status']),
-               force=SPEC_FORCE, len=len(rdb), same=None, nlist=0)
+    budget = dict(total=b.get('total'), connect=b.get('connect', 1), read=b['read'], status=b['status'])
+    if case.get('retries_form') is not None:
+        # retries given as a plain number or (connect, read) pair: the RDB fetch obeys the same rules as a chunk
+        # fetch of a store configured that way (status retries and force list are the store's defaults)
+        retries = case['retries_form'] if isinstance(case['retries_form'], int) else tuple(case['retries_form'])
+        cr = (retries, retries) if isinstance(retries, int) else retries
+        budget = dict(total=10, connect=cr[0], read=cr[1], status=5)
+    res = dict(budget=budget, force=SPEC_FORCE, len=len(rdb), same=None, nlist=0)
     try:
         src = TelstateDataSource.from_url(s3.url + path, chunk_store=None, timeout=(5.0, rt), retries=retries)
         res['same'] = (src.capture_block_id == '1234567890' and src.stream_name == 'sdp_l0'
@@ -762,6 +771,11 @@ def gen_word_cases(ctx):
                 arr_i = rng.randrange(len(ARRAYS))
                 cases.append(dict(kind='word', mode=mode, budget=b11, arr=arr_i,
                                   word=realise(rng, letters, body_len(mode, arr_i))))
+        # the same with the timeout given as a single number
+        for letters in ([('st',)], [('st',), ('T',)]):
+            arr_i = rng.randrange(len(ARRAYS))
+            cases.append(dict(kind='word', mode='chunk', budget=b11, arr=arr_i, scalar_timeout=True,
+                              word=realise(rng, letters, body_len('chunk', arr_i))))
     else:
         alpha = word_alphabet(rng, with_stall=True)
         for mode in ('chunk', 'rdb'):
@@ -930,6 +944,9 @@ def gen_misc_cases(ctx):
                                       ['status', 404], ['status', 403]]) for _ in range(rng.randint(1, 3))])
     for w in words:
         cases.append(dict(kind='rdburl', mode='rdb', budget=b11, word=w))
+    for form in (1, 2, [1, 2]):
+        for w in ([['status', a]], [['status', a], ['status', a]], [['status', a], ['truncate', 9]], []):
+            cases.append(dict(kind='rdburl', mode='rdb', budget=b11, word=w, retries_form=form))
     return cases
 
 
